@@ -58,8 +58,13 @@ def S(x):
 class G:
     """ghost view of one symbolic run: the stream, where the call starts reading, the mode"""
 
-    def __init__(self, p, stream, c0, mode, start):
+    def __init__(self, p, stream, c0, mode, start, fam=None):
         self.p, self.stream, self.c0, self.mode, self.start = p, stream, c0, mode, start
+        # the level functions; callers that model SEVERAL skips on one path give each (mode, start token) its own family
+        if fam is None:
+            self.B, self.K, self.P = B, K, P
+        else:
+            self.B, self.K, self.P = (z3.Function(f'{n}[{fam}]', I_, I_) for n in ('brace_level', 'bracket_level', 'paren_level'))
         sch = _schema()
         self.typ_a = H.heap_array(p, sch, 'typ')
         self.val_a = H.heap_array(p, sch, 'val')
@@ -84,6 +89,7 @@ class G:
     def inst(self, i):
         """ground instance of the recurrence of the three levels at stream position i"""
         db, dk, dp = self.deltas(i)
+        B, K, P = self.B, self.K, self.P
         self.p.assume(z3.Implies(z3.And(i >= self.c0, i < self.stream.length), z3.And(B(i + 1) == B(i) + db, K(i + 1) == K(i) + dk, P(i + 1) == P(i) + dp)))
 
     def is_end_token(self, i):
@@ -94,6 +100,7 @@ class G:
 
     def stop(self, i):
         endtypes = MODES[self.mode][1]
+        B, K, P = self.B, self.K, self.P
         zero = z3.And(B(i + 1) == 0, K(i + 1) == 0, P(i + 1) == 0)
         c = z3.Or(self.typ(i) == S('EOF'), z3.And(zero, self.is_end_token(i)))
         if self.mode == 'mediaqueryendonly':
@@ -371,3 +378,58 @@ def _m_post(I, args, kw):
 
 
 TARGETS = [_mk(m, ws) for m in MODES for ws in (False, True)]
+
+
+# ------------------------------------------------------------------ the contract as a callee model (for callers verified against it)
+def callee_model(I, args, kw):
+    """Base._tokensupto2 seen from a caller: the effect stated by the contract proved above - the iterator is advanced exactly behind the
+    first stop token of the mode (nesting levels counted from the start token), the result is the start token plus the consumed tokens.
+    The mode flags must be concrete at the call site."""
+    p = I.p
+    names = ['self', 'tokenizer', 'starttoken'] + FLAGS + ['separateEnd']
+    bound = dict(zip(names, args))
+    bound.update(kw)
+    it = bound.get('tokenizer')
+    st = bound.get('starttoken')
+    if isinstance(st, Opt):
+        st = I.unwrap(st, TypeError)
+    mode = None
+    for f in FLAGS:
+        v = bound.get(f, False)
+        if not isinstance(v, bool):
+            raise Unsupported('symbolic mode flag of _tokensupto2')
+        if v:
+            mode = f
+            break
+    if type(it).__name__ != 'SymIter':
+        raise Unsupported('_tokensupto2 on something else than a token iterator')
+    sch = _schema()
+    fam = f'{mode}|{st.id.sexpr() if st is not None else "-"}|{z3.simplify(it.cursor).sexpr()}'
+    g = G(p, it.base, it.cursor, mode, st, fam=fam)
+    b0, k0, p0 = g.init_levels()
+    c0, n = it.cursor, it.base.length
+    j = H._bound_var(p, 'j')
+    db, dk, dp = g.deltas(j)
+    p.assume(z3.And(g.B(c0) == b0, g.K(c0) == k0, g.P(c0) == p0))
+    p.assume(z3.ForAll([j], z3.Implies(z3.And(j >= c0, j < n), z3.And(g.B(j + 1) == g.B(j) + db, g.K(j + 1) == g.K(j) + dk, g.P(j + 1) == g.P(j) + dp))))
+    p.counter += 1
+    e = z3.Int(f'skip_end!{p.counter}')
+    p.assume(z3.And(e >= c0, e <= n, z3.ForAll([j], z3.Implies(z3.And(j >= c0, j < e - 1), z3.Not(g.stop(j)))),
+                    z3.Or(z3.And(e > c0, g.stop(e - 1)), z3.And(e == n, z3.Or(e == c0, z3.Not(g.stop(e - 1)))))))
+    it.cursor = e
+    s = 1 if st is not None else 0
+    res = H.SymList(z3.Array(f'skipped!{p.counter}', I_, I_), z3.Int(f'skippedlen!{p.counter}'), sch)
+    m = H._bound_var(p, 'm')
+    p.assume(res.length == s + (e - c0))
+    if s:
+        p.assume(z3.Select(res.elems, 0) == st.id)
+    p.assume(z3.ForAll([m], z3.Implies(z3.And(m >= c0, m < e), z3.Select(res.elems, s + (m - c0)) == z3.Select(it.base.elems, m))))
+    p.ghost.setdefault('skips', []).append({'g': g, 'c0': c0, 'e': e, 'mode': mode, 'start': st, 'result': res})
+    sep = bound.get('separateEnd', False)
+    if sep is True:
+        raise Unsupported('separateEnd at a modelled call site')
+    return res
+
+
+def callee(assumed=False):
+    return Model(callee_model, 'Base._tokensupto2: own contract (contracts/util_tokensupto2.py, 26 targets)', assumed=assumed)
